@@ -9,8 +9,8 @@ EXTENDS DecodePatch, Json, TLC
 
 CONSTANTS EmitOn, Pairs      \* Pairs >= 1: also two-element documents [valid, mutated] and [mutated, valid]; 2: double mutations
 
-N1   == Num("1", "1e0")
-NBig == Num("12345678901234567890123", "12345678901234567890123e0")
+N1   == Num(<<49>>)      \* 1
+NBig == Num(<<49,50,51,52,53,54,55,56,57,48,49,50,51,52,53,54,55,56,57,48,49,50,51>>)      \* 12345678901234567890123
 SA   == Str(<<47,97>>)            \* "/a"
 SB   == Str(<<47,98>>)            \* "/b"
 SX   == Str(<<120>>)
